@@ -556,6 +556,10 @@ static size_t vp_rd_room;                   /* bytes the caller's buffer still h
 static size_t vp_rd_total;                  /* bytes delivered by read/pread in the current API call */
 static uint64_t vp_rd_off;                  /* file offset the next pread must use */
 static int vp_rd_calls, vp_rd_eof, vp_lseek_calls;
+#ifndef VP_READS
+#define VP_READS 1000       /* reads that deliver bytes, per run */
+#endif
+static int vp_reads_left = VP_READS;
 static uint64_t vp_lseek_off;
 
 static ssize_t
@@ -569,6 +573,11 @@ vp_read_common(int fd, void *buf, size_t count, int positional, uint64_t off) {
   VP_ASSERT(vp_read_fd < 0 || fd == vp_read_fd, "read/pread on the descriptor of the file");
   VP_ASSERT(!vp_hard_fail, "no further read after a failed read inside one call");
   VP_ASSERT(!vp_rd_eof, "no further read after end-of-file inside one call");
+  if (vp_rd_next == NULL) {
+    /* first read into a buffer the harness cannot name (a local of the unit) */
+    vp_rd_next = (unsigned char *)buf;
+    vp_rd_room = count;
+  }
   VP_ASSERT((unsigned char *)buf == vp_rd_next, "each chunk is stored right behind the previous one");
   VP_ASSERT(count >= 1 && count <= vp_rd_room && count <= ((size_t)1 << 30), "read count in 1..min(room left, 2^30)");
   if (positional)
@@ -596,6 +605,10 @@ vp_read_common(int fd, void *buf, size_t count, int positional, uint64_t off) {
     }
   } else {
     n = count;
+  }
+  if (n > 0) {
+    VP_ASSUME(vp_reads_left > 0);   /* the file is finite */
+    vp_reads_left--;
   }
   vp_rd_next += n;
   vp_rd_room -= n;
@@ -723,6 +736,69 @@ vp_rmdir(const char *path) {
   return vp_path_result();
 }
 
+
+/* ---- mmap / munmap / getrlimit / pthread_once -------------------------------- */
+#ifndef VP_MAPMAX
+#define VP_MAPMAX 64
+#endif
+static unsigned char vp_map_region[VP_MAPMAX];
+static int vp_mmap_calls, vp_munmap_calls, vp_mapped;
+static size_t vp_map_len;
+
+static void *
+vp_mmap(void *addr, size_t length, int prot, int flags, int fd, off_t offset) {
+  int k;
+  vp_clock++;
+  vp_mmap_calls++;
+  VP_ASSERT(vp_fd_ok(fd), "mmap of an open descriptor");
+  VP_ASSERT(addr == NULL && offset == 0 && prot == PROT_READ && (flags & MAP_SHARED), "read-only shared mapping of the whole file");
+  VP_ASSERT(length <= VP_MAPMAX, "vp-model: mapping larger than the model region");
+  k = vp_kind(0);
+  VP_ASSUME(k != VP_R_EINTR);
+  if (k == VP_R_FAIL) {
+    vp_fail_hard(8, vp_pick_errno());
+    return MAP_FAILED;
+  }
+  vp_mapped = 1;
+  vp_map_len = length;
+  vp_scramble_errno();
+  return vp_map_region;
+}
+
+static int
+vp_munmap(void *addr, size_t length) {
+  vp_clock++;
+  vp_munmap_calls++;
+  VP_ASSERT(vp_mapped && addr == (void *)vp_map_region && length == vp_map_len, "munmap of exactly the mapping made");
+  vp_mapped = 0;
+  return 0;
+}
+
+static uint64_t vp_rlim_cur;
+static int vp_rlim_fail;
+
+static int
+vp_getrlimit(int what, struct rlimit *r) {
+  (void)what;
+  if (vp_rlim_fail)
+    return -1;
+  r->rlim_cur = (rlim_t)vp_rlim_cur;
+  r->rlim_max = (rlim_t)vp_rlim_cur;
+  return 0;
+}
+
+static int vp_once_done;
+
+static int
+vp_pthread_once(pthread_once_t *guard, void (*fn)(void)) {
+  (void)guard;
+  if (!vp_once_done) {
+    vp_once_done = 1;
+    fn();
+  }
+  return 0;
+}
+
 /* ---- the renaming ------------------------------------------------------------ */
 #define open vp_open
 #define close vp_close
@@ -740,5 +816,9 @@ vp_rmdir(const char *path) {
 #define rename vp_rename
 #define mkdir vp_mkdir
 #define rmdir vp_rmdir
+#define mmap vp_mmap
+#define munmap vp_munmap
+#define getrlimit vp_getrlimit
+#define pthread_once vp_pthread_once
 
 #endif /* VP_ENVUNIX_LIBC_H */
